@@ -292,6 +292,9 @@ type Association struct {
 	// bytes acknowledged by the SACK being processed for streams that are no
 	// longer registered under their identifier
 	ackedBytesDetached []detachedStreamCredit
+	// outgoingResetsPerformed: per stream identifier, the Sender's Last Assigned TSN of
+	// the latest outgoing reset the peer has performed.
+	outgoingResetsPerformed map[uint16]uint32
 	// peer reset requests already performed (to recognize retransmissions):
 	// the recent ones individually, older ones by the highest number performed
 	performedPeerRSNs       map[uint32]struct{}
@@ -3610,6 +3613,11 @@ func (a *Association) isOfReplacedStream(c *chunkPayloadData) bool {
 	if c.stream == nil {
 		return false
 	}
+	if last, ok := a.outgoingResetsPerformed[c.streamIdentifier]; ok && sna32LTE(c.tsn, last) {
+		// the peer has performed the reset that ended this chunk's incarnation: it
+		// holds no stream for it any more (and would create one for the entry)
+		return true
+	}
 	cur, ok := a.streams[c.streamIdentifier]
 
 	return ok && cur != c.stream
@@ -3948,7 +3956,11 @@ func (a *Association) resetOutgoingStreamSequenceNumbers(reconfigRequestSequence
 	if !ok {
 		return
 	}
+	if a.outgoingResetsPerformed == nil {
+		a.outgoingResetsPerformed = map[uint16]uint32{}
+	}
 	for _, id := range resetRequest.streamIdentifiers {
+		a.outgoingResetsPerformed[id] = resetRequest.senderLastTSN
 		if s, ok := a.streams[id]; ok {
 			s.resetOutgoingStreamSequenceNumbers()
 		}
